@@ -3,6 +3,7 @@ UNIT = dict(
     name='radix',
     roots=['rec:rt*', 'fn:frgv::frgv_force'],
     defines=['FRGV_ZERO_RECORD_LOCALS'],
+    first_includes=['hooks.h'],
     sources=['harness.c'],
     assumptions=['atomics are modelled sequentially (one writer, no concurrent reader in these runs); memory orders are carried as arguments but have no effect',
                  'element type frgv::tracked, allocator = CBMC allocation model',
@@ -29,7 +30,7 @@ def obligations(tier):
     obs = [dict(id='rt.pfx_idx', entry='h_rt_pfx_idx', cls='P', serves=['C09'], function='rt_pfx_of', timeout=300)]
     for n, (a, b, c, what) in enumerate(keysets(tier)):
         for m, seq in enumerate(SEQS):
-            obs.append(dict(id='rt.ops.keys%d.seq%d' % (n, m), entry='h_rt_ops', cls='B', serves=['C09', 'C16'], unwind=18, leak=True, function='rt_find_or_insert__int_R',
+            obs.append(dict(id='rt.ops.keys%d.seq%d' % (n, m), entry='h_rt_ops', cls='B', serves=['C09', 'C10', 'C16'], unwind=18, leak=True, function='rt_find_or_insert__int_R',
                             defines=['RT_LEN=%d' % len(seq), 'RT_OPS={%s}' % ','.join(str(x) for x in seq), 'RT_KEYS={0x%xUL,0x%xUL,0x%xUL}' % (a, b, c)],
                             bound='keys %#x, %#x, %#x (%s); operations %s (10k+i: 1 insert, 2 find_or_insert, 3 erase of key i); after every step 12 lookups (the keys and absent neighbours) and ordered iteration are compared with the reference map' % (a, b, c, what, seq),
                             timeout=900))
